@@ -424,9 +424,15 @@ func c09ConnLimit(c *Ctx, frozen bool, r *rand.Rand, rep int) {
 	if frozen {
 		return // the connection limiter does not use the clock: one run is enough
 	}
+	hold := make(chan struct{})
+	var held sync.WaitGroup
 	cl, _ := connlimit.New(http.HandlerFunc(func(w http.ResponseWriter, req *http.Request) {
 		if req.Header.Get("X-Panic") != "" {
 			panic(http.ErrAbortHandler)
+		}
+		if req.Header.Get("X-Hold") != "" {
+			held.Done()
+			<-hold
 		}
 	}), hdrExtractor, 3, connlimit.Logger(fmtLogger{}), connlimit.Verbose(rep%2 == 1))
 	per := c.N(500, 4000)
@@ -442,6 +448,38 @@ func c09ConnLimit(c *Ctx, frozen bool, r *rand.Rand, rep int) {
 		}()
 	})
 	c.Count("w6_ops", int64(16*per))
+	// no counter update was lost: with everything finished every source has exactly its 3 slots again
+	for s := 0; s < 3; s++ {
+		src := sfmt("s%d", s)
+		var wg sync.WaitGroup
+		for k := 0; k < 3; k++ {
+			held.Add(1)
+			wg.Add(1)
+			go func() {
+				defer wg.Done()
+				req := httptest.NewRequest("GET", "http://c.test/", nil)
+				req.Header.Set("X-Src", src)
+				req.Header.Set("X-Hold", "1")
+				rec := httptest.NewRecorder()
+				cl.ServeHTTP(rec, req)
+				if rec.Code == http.StatusTooManyRequests {
+					held.Done() // rejected: never reached the handler
+					c.Violation("w6/lost-update", sfmt("after %d concurrent requests had all finished, source %s could not get its full 3 slots back (a request below the limit was rejected)", 16*per, src), nil)
+				}
+			}()
+		}
+		held.Wait()
+		req := httptest.NewRequest("GET", "http://c.test/", nil)
+		req.Header.Set("X-Src", src)
+		rec := httptest.NewRecorder()
+		cl.ServeHTTP(rec, req)
+		if rec.Code != http.StatusTooManyRequests {
+			c.Violation("w6/lost-update", sfmt("after %d concurrent requests had all finished, source %s holds 3 requests in flight (limit 3) and a fourth was admitted (status %d): the per-source count has drifted", 16*per, src, rec.Code), nil)
+		}
+		close(hold)
+		wg.Wait()
+		hold = make(chan struct{})
+	}
 }
 
 type syncWriter struct {
